@@ -77,6 +77,14 @@ def gen_recipe(rng: random.Random) -> dict[str, Any]:
         # the number of unit combinations enumerated is ni ** num_vars
         rec["ni"] = min(rec["ni"], 3)
         recipes.fix_units(rec)
+    if rng.random() < 0.25:
+        # not region-graph shaped: a DAG whose inputs / sub-circuits have several parents
+        from . import dag_recipes
+
+        dag = dag_recipes.gen_dag(rng, input_spec=rec["input"], sum_spec=rec["sum"], max_vars=4)
+        dag.update({"rg": {"algo": "dag"}, "sp": "dag", "nary": "dense", "ni": dag["units"],
+                    "ns": dag["units"]})
+        rec = dag
     # sampling reads output [0, 0]; with two classes the root sum has more than one output
     # unit as well (the distribution checked is that of the first output)
     rec["nc"] = 1 if rng.random() < 0.6 else 2
